@@ -481,6 +481,11 @@ class Interp(object):
             row = it if it.kind == 'row' else it.base
             Cells = row.g['Cell_' + row.w][row.u]
             it = VBag([Node], lambda b: Cells[b] != 0, lambda b: VNode(b), note='neighbours')
+        if it.kind == 'snap' or (it.kind == 'keys' and it.what == 'keys' and it.base.kind == 'snap'):
+            # iteration over the keys of self.snapshots: the snapshot ids, each once, in insertion (= unspecified) order
+            from .loops import VBag
+            SK = (it if it.kind == 'snap' else it.base).g['SKey']
+            it = VBag([Int], lambda q: SK[q], lambda q: VInt(q), note='snapshot ids')
         if it.kind == 'tteinner':
             # iteration over the keys of one inner dict of the event log: a set of (u, v, op) keys, order unspecified
             from .loops import VBag
